@@ -58,7 +58,7 @@ class Interp:
         self.stats = {'id_reuse': 0, 'id_stale_hit': 0, 'repr_collision': 0, 'checker_hit': 0, 'wrapper_hit': 0,
                       'id_hit': 0, 'clear_by_redefinition': 0}
         self.ids_seen: dict[int, tuple] = {}          # id(wrapper) -> (weakref, fingerprint)
-        self.id_shadow: dict[tuple, tuple] = {}       # (table, ida, idb) -> fingerprints at insertion
+        self.id_shadow: dict[tuple, tuple] = {}       # (table, ida, idb) -> `==` classes of the two hints at insertion
         self.repr_seen: dict[str, set] = {}           # repr(hint) -> class-generation fingerprints
         self.confs = None
         self.reps: list = []                          # one representative hint per observed `==` class (observe mode)
@@ -339,7 +339,7 @@ class Interp:
             if idhit:
                 self.stats['id_hit'] += 1
                 sh = self.id_shadow.get((kind,) + key)
-                stale = sh is not None and sh != (fa, fb)
+                stale = sh is not None and sh != (self.eqc(a), self.eqc(b))
                 if stale:
                     self.stats['id_stale_hit'] += 1
             obs = {'kind': kind, 'fa': fa, 'fb': fb, 'eqa': self.eqc(a), 'eqb': self.eqc(b), 'hasha': _hashable(a),
@@ -352,7 +352,7 @@ class Interp:
         if self.observe:
             tab = self.idtable(kind)
             if tab is not None and key in tab and not idhit:
-                self.id_shadow[(kind,) + key] = (fa, fb)
+                self.id_shadow[(kind,) + key] = (self.eqc(a), self.eqc(b))
             obs['cached_after'] = tab is not None and key in tab
         return ans, obs
 
